@@ -135,13 +135,26 @@ func (w *c01World) call(op, table string, key, key2 []byte) {
 		keys = append(keys, verifsim.Bytes(key2))
 	}
 	w.tr.Emit("apiCall", "op", op, "table", verifsim.Bytes([]byte(table)), "keys", keys)
-	err := c01do(w.c, op, table, key, key2)
+	// (the cluster is healthy and its layout static: a request that has not succeeded after ten virtual minutes is going
+	// round in circles - sent to someone who does not serve its region)
+	ctx, cancel := context.WithTimeout(context.Background(), 10*time.Minute)
+	err := c01doCtx(ctx, w.c, op, table, key, key2)
+	cancel()
 	synctest.Wait()
 	w.tr.Emit("apiRet", "err", errClass(err))
 	w.n++
 	if err != nil && len(w.rep.Violations) < 10 {
 		w.rep.bad("routed-request-failed", "%s %q on table %q failed: %v", op, key, table, err)
 	}
+}
+
+func indexOfHost(hosts []string, h string) int {
+	for i, x := range hosts {
+		if x == h {
+			return i
+		}
+	}
+	return 0
 }
 
 func c01bytes(x []int) []byte {
@@ -276,7 +289,11 @@ func TestVerifC01(t *testing.T) {
 				}
 				sort.Slice(sp, func(i, j int) bool { return bytes.Compare(sp[i], sp[j]) < 0 })
 				splitsOf[tb] = sp
-				w.cl.CreateTable(tb, sp, []string{hosts[rng.Intn(3)], hosts[rng.Intn(3)]})
+				for ri, r := range w.cl.CreateTable(tb, sp, []string{hosts[rng.Intn(3)], hosts[rng.Intn(3)]}) {
+					if k%2 == 1 {
+						r.ReplicaHost = hosts[(indexOfHost(hosts, r.Host)+1+ri%2)%len(hosts)]
+					}
+				}
 			}
 			w.c = newSimClient(w.cl, RpcQueueSize(1+rng.Intn(4)))
 			for i := 0; i < 40; i++ {
